@@ -55,6 +55,8 @@ DOCUMENTED = {101, 102, lib.ERR["struct.error"], lib.ERR["TypeError"], lib.ERR["
               lib.ERR["IndexError"], lib.ERR["RecursionError"], lib.ERR["AttributeError"], lib.ERR["KeyError"]}
 PY_EXACT_FRAMES = 1400     # below this many frames the Python recursion limit binds before CPython 3.12's C-recursion limit
 HS_WALL_LIMIT = 3.0        # seconds per handshake-receiver input (a datagram-sized input decodes in microseconds)
+ALLOC_PER_BYTE = 1024      # tracemalloc peak allowed per input byte (a nesting level costs ~2 input bytes and one Python frame)
+ALLOC_CONST = 65536        # + this constant (measured on the unchanged tree: peak - 1024*|bs| <= ~1.1 KB over every sampled input)
 WALL_LIMIT = 8.0          # seconds per input before the watchdog calls it a hang
 
 
@@ -524,6 +526,7 @@ def _run(run):
              [cases[i] for i in range(0, len(cases), 97 if not T else 211)]
     worst = (0.0, None)
     worst_abs = 0
+    worst_excess = (0, None)
     with SL.KeyOracle():
         for fam, frames, data in sample:
             tracemalloc.start()
@@ -537,12 +540,16 @@ def _run(run):
             worst_abs = max(worst_abs, peak)
             if ratio > worst[0]:
                 worst = (ratio, (fam, len(data), peak))
-            if peak > 64 * 2 ** 20 + 400 * len(data):
+            excess = peak - ALLOC_PER_BYTE * len(data)
+            if excess > worst_excess[0]:
+                worst_excess = (excess, (fam, len(data), peak))
+            if peak > ALLOC_CONST + ALLOC_PER_BYTE * len(data):
                 run.oracle_violation("allocation-far-above-input", {"family": fam, "len": len(data), "peak": peak,
                                                                     "bytes": data[:300]}, "serializable.py:deserialize_value")
     run.notes.append("MEASURED (not proved): max wall time per input %.4f s; max wall time per byte (inputs >= 64 B) %.2e s; "
-                     "tracemalloc peak over %d sampled inputs: max %d B, worst peak/(|bs|+64) = %.1f at %s"
-                     % (maxima["time_abs"], maxima["time_per_byte"], len(sample), worst_abs, worst[0], worst[1]))
+                     "tracemalloc peak over %d sampled inputs: max %d B, worst peak/(|bs|+64) = %.1f at %s; worst peak - %d*|bs| = %d B at %s (limit %d)"
+                     % (maxima["time_abs"], maxima["time_per_byte"], len(sample), worst_abs, worst[0], worst[1],
+                        ALLOC_PER_BYTE, worst_excess[0], worst_excess[1], ALLOC_CONST))
 
     # ---- measurement of scaling: the same shape at n and 4n elements must not cost much more than 4x the time
     def hdr(tag, n):
@@ -738,3 +745,31 @@ def hs_run(run, hello, shello):
         run.oracle_violation("hang", {"family": "hs-receiver", "receiver": name, "bytes": data[:300], "len": len(data)},
                              "connection.py:" + name)
     del _HANGS[:]
+
+
+def replay(run, data):
+    """./check C14 --replay f : decode the recorded bytes on the current /repo tree and re-measure
+    (wall time, tracemalloc peak, exception kind)."""
+    import json
+    f = data.get("failure") or {}
+    case = f.get("case") or {}
+    b = case.get("bytes") or case.get("datagram") or ""
+    if not (isinstance(b, str) and b.startswith("hex:")):
+        print(json.dumps(data, indent=1)[:3000])
+        return 0
+    bs = bytes.fromhex(b[4:])
+    if case.get("len") is not None and case["len"] != len(bs):
+        print("recorded input was %d bytes, only the first %d are in the replay file" % (case["len"], len(bs)))
+    tracemalloc.start()
+    t0 = time.time()
+    try:
+        out = ["value", type(S.deserialize_value(io.BytesIO(bs))).__name__]
+    except Exception as e:      # noqa
+        out = ["raises", type(e).__name__]
+    dt = time.time() - t0
+    _, peak = tracemalloc.get_traced_memory()
+    tracemalloc.stop()
+    bad = peak > ALLOC_CONST + ALLOC_PER_BYTE * len(bs) or dt > WALL_LIMIT
+    print(json.dumps({"recorded": f.get("what"), "len": len(bs), "outcome": out, "seconds": round(dt, 4),
+                      "tracemalloc_peak": peak, "allowed_peak": ALLOC_CONST + ALLOC_PER_BYTE * len(bs), "violates": bad}))
+    return 1 if bad else 0
